@@ -447,6 +447,8 @@ impl Property for C10 {
             Segment::random("bitvec-bulk", tier.pick(10_000, 150_000), &[3], 8, 60),
             Segment::random("try_chunks_mut", tier.pick(30_000, 400_000), &[4], 8, 40),
             Segment::random("get_unaligned", tier.pick(20_000, 300_000), &[5], 8, 40),
+            // the parallel variants split only above 2 * RAYON_MIN_LEN = 200000 words
+            Segment::enumerated("parallel-variants-on-large-vectors", tier.pick(12, 60), &[0xF1]),
         ]
     }
     fn rule(&self) -> &'static str {
@@ -471,6 +473,11 @@ impl Property for C10 {
                 copy_exhaustive::<u16>(cx, wi - 7, from)
             };
         }
+        if *mode == 0xF1 {
+            let mut b = [0u8; 8];
+            b[..rest.len().min(8)].copy_from_slice(&rest[..rest.len().min(8)]);
+            return par_large_case(cx, u64::from_le_bytes(b));
+        }
         let mut u = Unstructured::new(rest);
         let sel = u.int_in_range(0u8..=5).unwrap_or(3);
         match *mode {
@@ -488,4 +495,99 @@ impl Property for C10 {
             _ => by_word!(sel, unaligned_case, cx, &mut u),
         }
     }
+}
+
+/// Parallel variants on vectors large enough for rayon to split the work
+/// (`with_min_len(RAYON_MIN_LEN)`, 100000 words per leaf).
+fn par_large_case(cx: &mut Ctx, j: u64) -> R {
+    let words = [200_000usize, 200_001, 400_003, 250_000, 1_000_000, 199_999][j as usize % 6];
+    let residual = [37usize, 0, 1, 63, 17, 5][(j / 6) as usize % 6];
+    let len = words * 64 + residual;
+    cx.hash(&("par-large", j));
+    cx.describe(|| format!("parallel variants: {words} full words + {residual} bits, pattern {}", j % 4));
+    cx.label("parallel_large");
+    cx.nontrivial();
+    let mut x = 0x9E37_79B9_7F4A_7C15u64 ^ j;
+    let mut next = || {
+        x ^= x << 13;
+        x ^= x >> 7;
+        x ^= x << 17;
+        x as usize
+    };
+    let nw = len.div_ceil(64);
+    let mut w: Vec<usize> = (0..nw).map(|_| next()).collect();
+    if j % 4 == 1 {
+        // ones only in the partial last word
+        w.iter_mut().for_each(|x| *x = 0);
+        if residual > 0 {
+            w[nw - 1] = !0;
+        }
+    }
+    // garbage beyond len in the last word stays there (nothing may trust or change it)
+    let tail_garbage = if residual > 0 { w[nw - 1] & (!0usize << residual) } else { 0 };
+    let logical = |w: &[usize]| -> usize {
+        let mut c: usize = w[..len / 64].iter().map(|x| x.count_ones() as usize).sum();
+        if residual > 0 {
+            c += (w[nw - 1] & ((1usize << residual) - 1)).count_ones() as usize;
+        }
+        c
+    };
+    let ones = logical(&w);
+    let mut bv = unsafe { BitVec::from_raw_parts(w, len) };
+    let c = cx.must("par_count_ones", || bv.par_count_ones())?;
+    cx.check_eq(c, ones, "par_count_ones", || format!("par_count_ones on {len} bits"))?;
+    let c = cx.must("count_ones", || bv.count_ones())?;
+    cx.check_eq(c, ones, "count_ones", || format!("count_ones on {len} bits"))?;
+    cx.must("par_flip", || bv.par_flip())?;
+    let c = cx.must("par_count_ones", || bv.par_count_ones())?;
+    cx.check_eq(c, len - ones, "par_flip", || format!("par_count_ones after par_flip on {len} bits"))?;
+    {
+        let ws: &[usize] = bv.as_ref();
+        cx.check_eq(logical(ws), len - ones, "par_flip", || "logical ones after par_flip".into())?;
+        if residual > 0 {
+            cx.check_eq(ws[nw - 1] & (!0usize << residual), tail_garbage, "par_flip.tail", || "par_flip changed bits beyond len".into())?;
+        }
+    }
+    // through the atomic twin
+    let mut a: AtomicBitVec = bv.into();
+    let c = cx.must("atomic.par_count_ones", || a.par_count_ones())?;
+    cx.check_eq(c, len - ones, "atomic.par_count_ones", || format!("AtomicBitVec::par_count_ones on {len} bits"))?;
+    cx.must("atomic.par_flip", || a.par_flip(Ordering::Relaxed))?;
+    let c = cx.must("atomic.count_ones", || a.count_ones())?;
+    cx.check_eq(c, ones, "atomic.par_flip", || format!("count after AtomicBitVec::par_flip on {len} bits"))?;
+    cx.must("atomic.par_fill", || a.par_fill(true, Ordering::Relaxed))?;
+    let c = cx.must("atomic.par_count_ones", || a.par_count_ones())?;
+    cx.check_eq(c, len, "atomic.par_fill", || format!("par_count_ones after AtomicBitVec::par_fill(true) on {len} bits"))?;
+    cx.must("atomic.par_reset", || a.par_reset(Ordering::Relaxed))?;
+    let c = cx.must("atomic.count_ones", || a.count_ones())?;
+    cx.check_eq(c, 0, "atomic.par_reset", || format!("count after AtomicBitVec::par_reset on {len} bits"))?;
+    let mut bv: BitVec = a.into();
+    cx.must("par_fill", || bv.par_fill(true))?;
+    let c = cx.must("par_count_ones", || bv.par_count_ones())?;
+    cx.check_eq(c, len, "par_fill", || format!("par_count_ones after par_fill(true) on {len} bits"))?;
+    cx.must("par_reset", || bv.par_reset())?;
+    let c = cx.must("count_ones", || bv.count_ones())?;
+    cx.check_eq(c, 0, "par_reset", || format!("count_ones after par_reset on {len} bits"))?;
+    if residual > 0 {
+        let ws: &[usize] = bv.as_ref();
+        cx.check_eq(ws[nw - 1] & (!0usize << residual), tail_garbage, "par.tail", || "a parallel bulk operation changed bits beyond len".into())?;
+    }
+    // BitFieldVec::par_reset / par_reset_atomic on >= 200000 words
+    let width = [7usize, 64, 1, 33][(j / 3) as usize % 4];
+    let n = (words * 64 + residual) / width;
+    let mut v = BitFieldVec::<usize>::new(width, n);
+    for i in (0..n).step_by(97) {
+        v.set(i, (i * 0x9E37) & mask128(width) as usize);
+    }
+    v.set(n - 1, mask128(width) as usize);
+    if j % 2 == 0 {
+        cx.must("par_reset", || v.par_reset())?;
+    } else {
+        let mut a: AtomicBitFieldVec<usize> = v.into();
+        cx.must("par_reset_atomic", || a.par_reset_atomic(Ordering::Relaxed))?;
+        v = a.into();
+    }
+    let nz = cx.must("scan", || (0..n).step_by(53).chain([n - 1, n - 2, 0]).filter(|i| v.get(*i) != 0).count())?;
+    cx.check_eq(nz, 0, "par_reset.large", || format!("BitFieldVec par_reset on {n} x {width} bits left non-zero elements"))?;
+    Ok(())
 }
